@@ -173,8 +173,7 @@ def cubie_problems(cube: np.ndarray) -> Optional[str]:
             if int(cube[f, m, m]) != f:
                 return f"central facelet of face {f} shows colour {int(cube[f, m, m])}"
     if n == 3:
-        eslots = [q for q in itertools.product((0, 1, 2), repeat=3) if sorted(q).count(1) == 1 and 1 in q
-                  and sum(1 for v in q if v == 1) == 1]
+        eslots = [q for q in itertools.product((0, 1, 2), repeat=3) if sum(1 for v in q if v == 1) == 1]
         ehome, eprim = {}, {}
         for q in eslots:
             axes = [a for a in range(3) if q[a] != 1]
